@@ -547,6 +547,10 @@ class DiHypergraph:
             warn(f"uid {idx} already exists, cannot add edge {members}")
             return
 
+        tail, head = list(tail), list(head)
+        if None in tail or None in head:
+            raise XGIError("None cannot be a node or edge")
+
         self._edge[uid] = {"in": set(), "out": set()}
 
         for node in tail:
@@ -683,9 +687,12 @@ class DiHypergraph:
                     raise XGIError("Directed edge must be a list or tuple!")
 
                 try:
-                    self._edge[idx] = {"in": set(tail), "out": set(head)}
+                    dimembers = {"in": set(tail), "out": set(head)}
                 except TypeError as e:
                     raise XGIError("Invalid ebunch format") from e
+                if None in dimembers["in"] or None in dimembers["out"]:
+                    raise XGIError("None cannot be a node or edge")
+                self._edge[idx] = dimembers
 
                 for n in tail:
                     if n not in self._node:
@@ -747,9 +754,12 @@ class DiHypergraph:
                 try:
                     tail = members[0]
                     head = members[1]
-                    self._edge[idx] = {"in": set(tail), "out": set(head)}
+                    dimembers = {"in": set(tail), "out": set(head)}
                 except TypeError as e:
                     raise XGIError("Invalid ebunch format") from e
+                if None in dimembers["in"] or None in dimembers["out"]:
+                    raise XGIError("None cannot be a node or edge")
+                self._edge[idx] = dimembers
 
                 for node in tail:
                     if node not in self._node:
